@@ -243,6 +243,10 @@ func (c Isolation) NewWorker(stats *engine.Stats) (engine.Worker, error) {
 		p.K.AppendSlashAck(st.Ctx, id, "slashack-"+id)
 		p.K.SetConsumerRewardsAllocationByDenom(st.Ctx, id, ibcDenom(id), providertypes.ConsumerRewardsAllocation{
 			Rewards: sdk.NewDecCoins(sdk.NewDecCoinFromDec(ibcDenom(id), math.LegacyNewDec(100)))})
+		// ... and a credit in the denom only the *other* consumer allow-lists (it must stay untouched)
+		other := map[string]string{"1": "10", "10": "1"}[id]
+		p.K.SetConsumerRewardsAllocationByDenom(st.Ctx, id, ibcDenom(other), providertypes.ConsumerRewardsAllocation{
+			Rewards: sdk.NewDecCoins(sdk.NewDecCoinFromDec(ibcDenom(other), math.LegacyNewDec(77)))})
 	}
 	if err := blk(); err != nil {
 		return nil, err
